@@ -123,8 +123,11 @@ def run(cx):
         cx.check('C10.G3', len(soa_ext) == 1, b.path, 'calls', 'soa-attached-to-authority', str(len(soa_ext)))
         neg = [s for s in cx.calls(b, r'ZoneHandler::(nsec_records|nsec3_records)$') if cx.has_guard(s, r'^!ok\(phi\(Option::Some\(\^arg1@Ok\.0\)\|Option::None\)\)$')]
         cx.guard('C10.G3', neg, {'DO-set': r'^\^arg4\.dnssec_ok$'}, expect=2, fn=b)
-        pos = [s for s in cx.calls(b, r'ZoneHandler::nsec_records$') if cx.has_guard(s, r'^ok\(phi\(Option::Some\(\^arg1@Ok\.0\)\|Option::None\)\)$')]
-        cx.guard('C10.G3', pos, {'wildcard-matched-answer': r'^Iterator::any\(AuthLookup::iter\(.*\),closure:catalog::build_authoritative_response::\{closure#0\}::\{closure@any#0\}\)$'}, expect=1, fn=b)
+        # RFC 4035 3.1.3.3 / RFC 5155 7.2.6: a POSITIVE answer carries NSEC / NSEC3 records only when it was synthesised from a
+        # wildcard (hickory's own validator takes NSEC3 records next to an answer for a wildcard proof and calls a plain answer Bogus - F27)
+        pos = [s for s in cx.calls(b, r'ZoneHandler::(nsec_records|nsec3_records)$') if cx.has_guard(s, r'^ok\(phi\(Option::Some\(\^arg1@Ok\.0\)\|Option::None\)\)$')]
+        cx.check('C10.G3', len(pos) == 2, b.path, 'calls', 'positive-answer-proof-lookups(NSEC,NSEC3)', str(len(pos)))
+        cx.guard('C10.G3', pos, {'wildcard-matched-answer': r'^Iterator::any\(AuthLookup::iter\(.*\),closure:catalog::build_authoritative_response::\{closure#0\}::\{closure@any#0\}\)$'}, expect=2, fn=b)
     r1 = cx.fn('C10.G3', 'hickory_server::zone_handler::catalog::build_authoritative_response::{closure#0}::{closure@is_some_and#0}')
     if r1:
         t = cx.true_returns(r1)
